@@ -598,6 +598,7 @@ def check_C16(ctx, rep):
         bad = [S for S in feas if not free(S)]
         rep.ob('C16.R4', pq, 'head-handed-out-only-when-free-to-leave', bool(feas) and not bad, 'paths %d' % len(feas) + ('' if not bad else '; witness ' + show_facts(bad[0])))
     rep.count_floor('C16.R4', 'returns of the queue head in peek_queue', n_head, 3)
+    check_earliest_side(ctx, rep, 'C16.R4')
     check_is_event_table(ctx, rep, 'C16.R4')
     rep.rule('C16.R5', 'bypass classification: queue::peek_blocking treats the bypassable heap as blocked exactly when the active blocking is not '
              'bypassable, queue::peek_non_blocking treats it as free exactly when it is; peek_queue_earliest_side passes the side\'s own flag')
@@ -766,6 +767,14 @@ def peek_nonstrict(ctx, rep, rid, fname, what):
             judge(ops[0], ops[1], ops[2], now_pred, 'loop' if sc is fn else 'closure')
     loops = fa.cfg.loops()
     if loops:
+        # the result is the time to a slot of either side (or "nothing"): a loop that never records what it found is no search
+        rv = [v for (b, k, v) in ret_defs(fa)]
+        sides_seen = set()
+        for v in rv:
+            for y in walk(v):
+                if is_call(y, 'duration_since'):
+                    sides_seen.add(param_behind(fa, y[2][0]))
+        rep.ob(rid, fn, 'result-records-a-slot-of-either-side', sides_seen >= {1, 2}, 'the result is computed from slots of parameters %s' % sorted(x for x in sides_seen if x))
         rep.count_exact(rid, 'eligibility comparisons in ' + fname, n, 2)
         for h, body in loops.items():
             bad = []
@@ -968,6 +977,7 @@ def check_C17(ctx, rep):
         if (callee_str(f).endswith('Option::<T>::replace') or callee_str(f).endswith('Option::<T>::insert')) and len(a) == 2 and a[0][0] == 'ref' and in_field(a[0][1], 'scheduled_action', 'SimState'):
             sa_stores = sa_stores + [(a[0][1], ('agg', 'core::option::Option', 'Some', (('0', a[1]),)), (b, len(fa.blocks[b]['s'])))]
     action_loop_rule(ctx, rep, 'C17.R1', tu, fa, h, body)
+    check_zero_default_delays(ctx, rep, 'C17.R1')
     for var in ('SendPadding', 'BlockOutgoing'):
         if var not in arms:
             rep.ob('C17.R1', tu, 'arm-present:' + var, False, '')
@@ -1647,6 +1657,18 @@ def check_simqueue_peek_merge(ctx, rep, rid):
         ok, w = all_paths(sts, ok_case)
         rep.ob(rid, pk, 'merge:%s-returned-only-when-first' % mine, ok and bool(sts), '' if ok else 'witness: ' + show_facts(w))
     rep.count_floor(rid, 'non-empty results of SimQueue::peek', n, 4)
+    # "nothing queued" is answered only for an empty queue: the early empty result sits behind len() == 0 (the caller unwraps otherwise)
+    for (cls, nm) in (('SimQueue', 'peek'), ('EventQueue', 'peek')):
+        f2 = prog.fn(SIM, cls, nm)
+        a2 = an.get(f2)
+        sws = []
+        for b in a2.cfg.reach:
+            t = a2.blocks[b]['t']
+            if t['k'] == 'switch':
+                e = a2.operand(t['d'], (b, len(a2.blocks[b]['s'])))
+                if is_call(unload(e), '::len'):
+                    sws.append((b, [x[0] for x in t['ts']]))
+        rep.ob(rid, f2, 'empty-result-only-for-an-empty-queue', len(sws) == 1 and sws[0][1] == ['0'], 'switch on len(): cases %s' % [x[1] for x in sws])
 
 
 def check_pick_next_handlers(ctx, rep, rid, handler, peek):
@@ -1848,6 +1870,76 @@ def check_pick_priorities(ctx, rep, rid, only=None):
             for o in others:
                 ok = any(x == src and y == o and pa.cfg.dominates(tb, b) for (x, y, tb) in conds)
                 rep.ob(rid, pn, 'priority:%s-not-later-than:%s' % (what, o.replace('peek_', '')), ok, '%s is acted on only behind %s <= %s' % (what, src, o))
+
+
+def check_earliest_side(ctx, rep, rid):
+    """peek_queue_earliest_side: an event held by blocking cannot leave before the blocking ends - wherever the time of the blocked
+    candidate is used (the duration returned for it, the comparison with the free candidate) it is max(event time, blocking_until);
+    a base event's time includes the accumulated network delay (added); every result carries the caller's side flag"""
+    prog, an = ctx.prog, ctx.an
+    fn = sim_fn(prog, 'peek_queue_earliest_side')
+    fa = an.get(fn)
+    rep.analysed(fn)
+    is_blk = lambda e: contains(e, lambda y: is_call(y, 'SimQueue::peek_blocking'))
+    is_free = lambda e: contains(e, lambda y: is_call(y, 'SimQueue::peek_non_blocking'))
+    uses = []
+    for (b, f, a, t) in calls(fa):
+        cs = callee_str(f)
+        if cs.endswith('duration_since') or cs.endswith('Ord>::cmp') or cs.endswith('Ord::cmp'):
+            for x in a:
+                # arguments are references to temporaries: look at what the temporary holds
+                x0 = x
+                while isinstance(x0, tuple) and x0 and x0[0] in ('ref', 'refv', 'load'):
+                    x0 = x0[1]
+                if isinstance(x0, tuple) and x0 and x0[0] == 'local':
+                    ds = fa.defs().get(x0[1], [])
+                    if len(ds) == 1:
+                        x = fa.def_value(x0[1], ds[0][0], ds[0][1])
+                if is_blk(x) and not is_free(x) and contains(x, lambda y: isinstance(y, tuple) and y and y[0] == 'fld' and y[3] == 'time'):
+                    uses.append(x)
+    rep.count_floor(rid, 'uses of the blocked candidate\'s time in peek_queue_earliest_side', len(uses), 3)
+    for x in uses:
+        through_max = contains(x, lambda y: isinstance(y, tuple) and y and y[0] == 'call' and (y[1].endswith('Ord>::max') or y[1].endswith('Ord::max')) and
+                               any(contains(z, lambda w: w == ('param', 2)) for z in y[2]) and any(is_blk(z) for z in y[2]))
+        no_min = not contains(x, lambda y: isinstance(y, tuple) and y and y[0] == 'call' and (y[1].endswith('Ord>::min') or y[1].endswith('Ord::min')))
+        rep.ob(rid, fn, 'blocked-candidate-leaves-no-earlier-than-blocking-ends', through_max and no_min, 'time used: %s' % shape(x)[:100])
+    for (b, k, v) in ret_defs(fa):
+        if isinstance(v, tuple) and v and v[0] == 'tuple' and len(v[2]) == 3:
+            rep.ob(rid, fn, 'result-carries-the-callers-side', strip_sites(v[2][2]) == ('param', 6), 'is_client = %s' % shape(v[2][2]))
+    # base events: + network_delay_sum
+    adds = [y for (b, f, a, t) in calls(fa) for y in [fa.call_value(fa.blocks[b]['t'], (b, len(fa.blocks[b]['s'])))] if callee_str(f).endswith('::add') and is_free(y)]
+    subs = [1 for (b, f, a, t) in calls(fa) if callee_str(f).endswith('::sub') and any(is_free(x) for x in a)]
+    rep.ob(rid, fn, 'base-event-time-includes-the-network-delay', bool(adds) and not subs and all(strip_sites(y[2][1]) == ('param', 5) for y in adds), 'additions: %d, subtractions: %d' % (len(adds), len(subs)))
+
+
+def check_zero_default_delays(ctx, rep, rid):
+    """without an integration model the three integration delays are zero (the properties speak of runs without integration delays;
+    `timeout expiry`, `network delay` and `expiry` are then exact): SimState::{reporting,action,trigger}_delay fall back to a zero Duration"""
+    prog, an = ctx.prog, ctx.an
+
+    def zero_dur(e):
+        e = strip_sites(e)
+        if isinstance(e, tuple) and e and e[0] == 'call' and e[1].split('::')[-1] in ('from_micros', 'from_millis', 'from_secs', 'from_nanos') and len(e[2]) == 1:
+            return is_const(e[2][0], 0)
+        if isinstance(e, tuple) and e and e[0] == 'cdef' and (e[1].endswith('::ZERO') or prog.consts.get(e[1], {}).get('allzero') is True):
+            return True
+        if isinstance(e, tuple) and e and e[0] == 'call' and e[1].endswith('Default>::default'):
+            return True
+        return False
+    for n in ('reporting_delay', 'action_delay', 'trigger_delay'):
+        fn = prog.fn_opt(SIM, 'SimState', n)
+        if fn is None:
+            rep.fail_closed(rid, 'SimState::' + n)
+            continue
+        rv = [v for (b, k, v) in ret_defs(an.get(fn))]
+        ok = False
+        for v in rv:
+            for y in walk(v):
+                if isinstance(y, tuple) and y and y[0] == 'call' and y[1].endswith('Option::<T>::unwrap_or') and len(y[2]) == 2 and zero_dur(y[2][1]):
+                    ok = True
+                if isinstance(y, tuple) and y and y[0] == 'call' and y[1].endswith('Option::<T>::map_or') and len(y[2]) == 3 and zero_dur(y[2][1]):
+                    ok = True
+        rep.ob(rid, fn, 'no-integration-means-zero-delay', ok, 'returns %s' % (shape(rv[0])[:80] if rv else '?'))
 
 
 def check_C19(ctx, rep):
